@@ -460,6 +460,11 @@ func sameValueDeep(a, b Value) bool {
 }
 
 func (e *Engine) applyHavoc(h *havocSet, st *State) {
+	if e.trackAlloc {
+		// a loop body may allocate: the counter only grows
+		h.mem["@alloc"] = true
+		defer func(old *Term) { st.assume(mkCmp("<=", old, st.mem["@alloc"])) }(e.allocCounter(st))
+	}
 	for _, k := range []string{"@nextid", "@consumed", "@sent", "@closed"} {
 		if h.arr[k] {
 			e.freshCursorArray(st, k)
